@@ -12,6 +12,7 @@ import (
 	"time"
 
 	"github.com/gr33nbl00d/caddy-revocation-validator/core"
+	"github.com/gr33nbl00d/caddy-revocation-validator/crl"
 	"github.com/gr33nbl00d/caddy-revocation-validator/crl/crlloader"
 	"go.uber.org/zap"
 )
@@ -303,16 +304,19 @@ func (w *repoWorld) apply(o repoOp) string {
 		cert, chains := w.chainFor(o.Issuer, o.Serial, o.CDP, o.Cands)
 		before := w.spawnBaseline(o.CDP)
 		hits := w.origin.TotalHits()
-		// background mode: the load which this handshake may spawn must not overtake the handshake's own lookup - its request
-		// is held at the origin until the lookup has answered (a fixed delay was not enough on a loaded machine)
+		// background mode: the load which this handshake may spawn must not overtake the handshake's own lookup. The real code
+		// leaves that order open (the spawned refresh takes the entry's write lock for the whole first load; a lookup that comes
+		// second waits for it and then sees the list in force), so the harness fixes it: it holds the process-wide refresh mutex,
+		// which the spawned refresh needs before it touches any entry, until the lookup has answered. (Delaying or holding the
+		// download at the origin was wrong: the load then sits on the entry lock and the lookup waits for it.)
 		release := func() {}
 		if w.cfg.Fetch == "background" && o.CDP != 0 {
-			release = w.origin.Hold(fmt.Sprintf("/loc%d", o.CDP))
+			release = crl.VerifHoldUpdateMutex()
 		}
 		st, err := chk.IsRevoked(cert, chains)
 		heldSnap := ""
 		if before && w.cfg.Fetch == "background" {
-			heldSnap = w.snapshot() // the spawned load of this location is still waiting at the origin
+			heldSnap = w.snapshot() // the spawned refresh is still waiting for the refresh mutex
 		}
 		release()
 		status := "notRevoked"
